@@ -70,6 +70,10 @@ func dropEmptyStrs(strs []string) []string {
 
 func (c *UI) parseCommand(str string) (Command, []interface{}, error) {
 	parts := dropEmptyStrs(strings.Split(str, " "))
+	if len(parts) == 0 {
+		return Command{}, nil, fmt.Errorf("no command entered")
+	}
+
 	cmdStr := parts[0]
 	parts = parts[1:]
 
@@ -97,6 +101,11 @@ func (c *UI) parseCommand(str string) (Command, []interface{}, error) {
 	parts = parts[len(cmd.Args):]
 	if len(parts) == 0 {
 		return cmd, args, nil
+	}
+
+	if cmd.OptionalArgs == nil {
+		err := fmt.Errorf("too many args: command %q accepts %d args", cmdStr, len(cmd.Args))
+		return Command{}, nil, err
 	}
 
 	vals, err := cmd.OptionalArgs(parts)
